@@ -47,6 +47,8 @@ type G struct {
 	spawn int
 	prio  int
 	dead  bool
+	ticks uint64 // preemption ticks executed by this goroutine (touched by itself only)
+	idh   uint64
 }
 
 // PanicRec describes a panic in a registered goroutine.
@@ -84,6 +86,8 @@ type Config struct {
 	SigintStep int          // >0: cancel all NotifyContexts right before that scheduling step
 	SigintAt   time.Duration // >0: cancel all NotifyContexts at that virtual time
 	MaxStepsNoTime int       // >0: declare busy loop after this many steps without time advance
+	NoPreempt bool           // never preempt between ordinary statements (Tick)
+	PreemptM  int            // >0: preempt at about one tick in PreemptM in this run (overrides the default draw)
 }
 
 // TraceEvent is one scheduling step or world event.
@@ -139,6 +143,8 @@ type Run struct {
 
 	numCPU int
 	onEnd  []func()
+	preemptM    uint64 // 0 = no preemption between ordinary statements in this run
+	preemptSalt uint64
 	worldRoot *G
 	attached map[string]interface{}
 }
@@ -393,6 +399,9 @@ func (r *Run) spawn(parent *G, site string, fn func(), isDriver bool) {
 	path := append(append([]int{}, parent.path...), k)
 	id := parent.ID + "." + strconv.Itoa(k)
 	g := &G{ID: id, path: path, wake: make(chan struct{}, 1)}
+	for _, ch := range []byte(id) {
+		g.idh = tickMix(g.idh, uint64(ch))
+	}
 	r.spawned++
 	r.mu.Unlock()
 	started := make(chan struct{})
@@ -499,11 +508,59 @@ func Post() {
 	r.park(g, "post:"+g.site)
 }
 
+func tickMix(a, b uint64) uint64 {
+	x := a ^ (b+0x9e3779b97f4a7c15)*0xbf58476d1ce4e5b9
+	x ^= x >> 31
+	x *= 0x94d049bb133111eb
+	x ^= x >> 29
+	return x
+}
+
+// Tick is placed by simgen before every ordinary statement of sx.  In runs with preemption
+// enabled it parks the calling goroutine at a pseudo-random subset of the ticks it executes: a
+// function of (run salt, goroutine id, how many ticks this goroutine has executed), so the
+// decision needs no entry in the choice list and is the same in every replay.
+func Tick() {
+	r := cur.Load()
+	if r == nil || r.preemptM == 0 {
+		return
+	}
+	g := r.me()
+	if g == nil {
+		return
+	}
+	g.ticks++
+	if tickMix(r.preemptSalt^g.idh, g.ticks)%r.preemptM != 0 {
+		return
+	}
+	r.mu.Lock()
+	r.probes["preempted-between-statements"]++
+	r.mu.Unlock()
+	r.park(g, "tick")
+}
+
 // Yield is Pre+Post in one: a pure scheduling point.
 func Yield(site string) { Pre(site) }
 
 func (r *Run) initStrategy() {
 	r.strategy = r.chooseSched("strategy", 4)
+	// preemption between ordinary statements (see Tick): off in most runs
+	if r.cfg.PreemptM > 0 {
+		r.preemptM = uint64(r.cfg.PreemptM)
+		r.preemptSalt = uint64(r.chooseSched("preemptsalt", 1<<30))
+	} else if !r.cfg.NoPreempt {
+		switch r.chooseSched("preempt", 8) {
+		case 5:
+			r.preemptM = 8
+		case 6:
+			r.preemptM = 48
+		case 7:
+			r.preemptM = 400
+		}
+		if r.preemptM > 0 {
+			r.preemptSalt = uint64(r.chooseSched("preemptsalt", 1<<30))
+		}
+	}
 	switch r.strategy {
 	case 1:
 		r.stickyP = []int{2, 5, 10, 25, 50}[r.chooseSched("stickyP", 5)]
